@@ -43,7 +43,7 @@ class SameID:
     for tag in previous.tagnames:
       prv = previous.get(tag)
       cur = self.get(tag)
-      if cur and cur != prv:
+      if cur is not None and cur != prv:
         raise gfapy.NotUniqueError(
           "Same tag defined differently in "+
           "multiple group lines with same ID\n"+
@@ -55,7 +55,7 @@ class SameID:
     for tag in previous.tagnames:
       prv = previous.get(tag)
       cur = self.get(tag)
-      if cur:
+      if cur is not None:
         if cur != prv:
           raise gfapy.NotUniqueError(
             "Same tag defined differently in "+
